@@ -102,6 +102,17 @@ def gen(src):
             'self.timepoints': ['sc.inclusiverange(self.start_point, self.end_point)']}
     if uses != want or yv != ['sim.t.yearvec']:
         raise ExtractError(f'RoutineDelivery.init_pre: start/end point computation changed: {uses}')
+    # the intervention's own year vector (abscissae of the interpolated probability vector)
+    yvs = [x.value for x in _assigns(ip, 'self.yearvec')]
+    if len(yvs) != 1:
+        raise ExtractError('RoutineDelivery.init_pre: self.yearvec assignment not found')
+    ytxt = unparse(yvs[0])
+    if ytxt == f'np.arange(self.start_year, self.end_year + {adj_name}, {dt_name})':
+        vec_per_tp = False
+    elif ytxt in (f'self.start_year + np.arange(len(self.timepoints)) * {dt_name}', f'self.start_year + {dt_name} * np.arange(len(self.timepoints))'):
+        vec_per_tp = True
+    else:
+        raise ExtractError(f'RoutineDelivery.init_pre: unsupported self.yearvec expression {ytxt}')
     # ---- probability conversion ----
     conv = None
     for n in ast.walk(ip):
@@ -148,6 +159,8 @@ def gen(src):
 def adjThreshold : Rat := {lean_rat(thr)}
 def adjFineSub : Int := {int(fine)}
 def adjCoarse : Int := {int(coarse)}
+/-- `self.yearvec` has one entry per time point (false: `np.arange(start_year, end_year + adj_factor, dt)`) -/
+def vecPerTimepoint : Bool := {str(vec_per_tp).lower()}
 /-- expressions over the annual probability `p` and the step `dt` -/
 inductive PExpr
   | p | dt | one
@@ -163,7 +176,7 @@ def gateVaccinationOnTi : Bool := {str(g_vx).lower()}
 def capSliceOffset : Int := {offs[0]}
 end StarsimModel.Gen
 '''
-    facts = dict(adj_threshold=str(thr), adj_fine_sub=int(fine), adj_coarse=int(coarse), prob_conversion=unparse(conv),
+    facts = dict(adj_threshold=str(thr), adj_fine_sub=int(fine), adj_coarse=int(coarse), vec_per_timepoint=vec_per_tp, yearvec_expr=ytxt, prob_conversion=unparse(conv),
                  gate_screening=s_scr, gate_triage=s_tri, gate_vaccination=s_vx,
                  gate_screening_on_ti=g_scr, gate_triage_on_ti=g_tri, gate_vaccination_on_ti=g_vx, cap_slice_offset=offs[0])
     return body, facts
